@@ -274,6 +274,8 @@ class extract_visitor(NodeVisitor):
 
         cur = self.flow
         scope = FuncScope(cur.scope, node, self.top)
+        if cur.hint in ('comp', 'walrus'):
+            scope.comp_flow = cur  # type: ignore[attr-defined]
         self.visit_in_flow(node.body, scope.flow)
 
     def visit_ClassDef(self, node):
@@ -312,7 +314,7 @@ class extract_visitor(NodeVisitor):
                     continue
                 name = nn  # type: ast.Name
                 name.flow = pp  # type: ignore[attr-defined]
-                p.add_name(AssignedName(name.id, np(node), np(name), g.iter))
+                p.add_name(AssignedName(name.id, np(node), np(name), g.iter), local=False)
 
             if g.ifs:
                 for inode in g.ifs:
